@@ -411,6 +411,82 @@ def api_cases(rng, tier):
             box["checked"] = True
             return None
         cases.append(Case(line, impl, oracle, "gradapi/fam%d/d%d/%s" % (fam, d, "ttm" if ttm else "tt"), True, desc=line, gauge_ok=False))
+    # grad_list on operands of DIFFERENT orders (the factors of kron, an operator next to tensors): all_in_one = True gives one flat list,
+    # all_in_one = False one list per tensor with that tensor's own number of cores (model: GradApi.gradListNested / gradListFlat)
+    for gi in range(12 if tier == "quick" else 60):
+        orders = [[2, 3], [1, 3, 2], [3, 2], [2, 2], [1, 2], [3, 1, 2], [2, 4], [4, 1]][gi % 8]
+        flat = (gi // 8 + gi) % 2 == 1
+        with_ttm = gi % 3 == 2
+        xs0 = []
+        for t, dd in enumerate(orders):
+            Nt = rand_modes(rng, dd, 1, 3, distinct=False)
+            Mt = rand_modes(rng, dd, 1, 2, distinct=False) if (with_ttm and t == len(orders) - 1) else None
+            xs0.append((rand_tt(rng, Nt, rand_ranks(rng, dd, 2), tn.float64, M=Mt), rand_tt(rng, Nt, rand_ranks(rng, dd, 2), tn.float64, M=Mt), Mt is not None))
+        zN = list(xs0[0][0].N) + list(xs0[1][0].N)
+        z0 = rand_tt(rng, zN, rand_ranks(rng, len(zN), 2), tn.float64) if not xs0[1][2] else None
+        line = J("gradlist", len(orders), *orders, 1 if flat else 0)
+        box = {}
+
+        def value(xs, ys, z, dense):
+            v = 0
+            for t, (x, y) in enumerate(zip(xs, ys)):
+                v = v + (t + 1) * (x * y).sum() + (x * x).sum()
+            if z is not None:
+                k = (xs[0].reshape(list(xs[0].shape) + [1] * (z.dim() - xs[0].dim())) * xs[1].reshape([1] * xs[0].dim() + list(xs[1].shape))) if dense else torchtt.kron(xs[0], xs[1])
+                v = v + 2 * (k * z).sum()
+            return v
+
+        def impl(xs0=xs0, z0=z0, flat=flat, box=box, value=value):
+            xs = [torchtt.TT([c.clone() for c in a.cores]) for a, _, _ in xs0]
+            ys = [torchtt.TT([c.clone() for c in b.cores]) for _, b, _ in xs0]
+            z = torchtt.TT([c.clone() for c in z0.cores]) if z0 is not None else None
+            torchtt.grad.watch_list(xs)
+            val = value(xs, ys, z, False)
+            gl = torchtt.grad.grad_list(val, xs, all_in_one=flat)
+            box["gl"] = gl
+
+            def owner(g):
+                for t, x in enumerate(xs):
+                    for k, c in enumerate(x.cores):
+                        if c.grad is g and g is not None:
+                            return "%d.%d" % (t, k)
+                return "?"
+            if flat:
+                return "gl flat " + " ".join(owner(g) for g in gl)
+            return "gl nested " + " | ".join(" ".join(owner(g) for g in sub) if isinstance(sub, (list, tuple)) else "?" for sub in gl)
+
+        def oracle(xs0=xs0, z0=z0, flat=flat, box=box, value=value, orders=orders):
+            if "gl" not in box:
+                return "grad_list raised"
+            gl = box["gl"]
+            if flat:
+                if len(gl) != sum(orders):
+                    return "all_in_one=True: %d entries for %d cores" % (len(gl), sum(orders))
+                nested, pos = [], 0
+                for dd in orders:
+                    nested.append(gl[pos:pos + dd]); pos += dd
+            else:
+                if len(gl) != len(orders):
+                    return "all_in_one=False: %d lists for %d tensors" % (len(gl), len(orders))
+                if [len(sub) for sub in gl] != list(orders):
+                    return "all_in_one=False: lists of lengths %s for tensors of orders %s" % ([len(sub) for sub in gl], list(orders))
+                nested = gl
+            css = [[c.clone().requires_grad_(True) for c in a.cores] for a, _, _ in xs0]
+            xd = [dense_of_cores(cs, ttm) for cs, (_, _, ttm) in zip(css, xs0)]
+            yd = [dense_of_cores([c.clone() for c in b.cores], ttm) for _, b, ttm in xs0]
+            zd = dense_of_cores([c.clone() for c in z0.cores], False) if z0 is not None else None
+            value(xd, yd, zd, True).backward()
+            for t, sub in enumerate(nested):
+                for k, g in enumerate(sub):
+                    if g is None:
+                        return "entry [%d][%d] is None although the tensor is watched" % (t, k)
+                    if list(g.shape) != list(css[t][k].shape):
+                        return "entry for tensor %d core %d has shape %s, the core has shape %s" % (t, k, list(g.shape), list(css[t][k].shape))
+                    e = exact_equal(g, css[t][k].grad)
+                    if e:
+                        return "entry for tensor %d core %d is not the derivative with respect to that core: %s" % (t, k, e)
+            return None
+        cases.append(Case(line, impl, oracle, "gradlist/%s/orders%s%s" % ("flat" if flat else "nested", "".join(map(str, orders)), "/ttm" if with_ttm else ""), True, desc=line, gauge_ok=False))
     # operands produced by the FACTORIES (ones / zeros / eye / rank-one / kron of those), with repeated mode sizes: every core position is its own
     # leaf — watching one core must not track another position, and each slot is the derivative with respect to that position alone
     for fi in range(8 if tier == "quick" else 40):
